@@ -621,6 +621,11 @@ CORPUS = [
 
 # the two known findings, as scenarios
 KNOWN_CASES = [
+    # output that arrived while no call was outstanding sits in the kernel (the transport is paused); an awaited call with timeout=0 gives up
+    # without looking at it, the blocking call reads it and matches
+    (KNOWN_T0, dict(kind='fd', arrivals=[[0.3, 'w', 'abc']], ops=[dict(mode='a', k='x', pats=[L('zz')], T=0.2, gap=0),
+                                                                  dict(mode='a', k='x', pats=[L('b')], T=0, gap=0.5)])),
+    (KNOWN_T0, dict(kind='pty', arrivals=[[0.1, 'w', 'abc']], ops=[dict(mode='a', k='x', pats=[L('b')], T=0, gap=0.5)])),
     (KNOWN_T0, dict(kind='fd', arrivals=[[0.0, 'w', 'abc']], ops=[dict(mode='a', k='x', pats=[L('zz')], T=0.35, gap=0),
                                                                   dict(mode='a', k='x', pats=[L('Q'), ['T']], T=0.35, gap=0),
                                                                   dict(mode='a', k='x', pats=[L('b')], T=0, gap=0.2)])),
